@@ -44,6 +44,7 @@ struct MixedInst {
     MixedInst(const char *k1_, const char *k2_, const char *lo_, const char *hi_, const char *plo_, const char *phi_, const MOpts &o_)
         : k1(parse_i128(k1_)), k2(parse_i128(k2_)), lo(parse_i128(lo_)), hi(parse_i128(hi_)), plo(parse_i128(plo_)), phi(parse_i128(phi_)), o(o_),
           rng(o_.seed ^ (N1 * 31 + D1 * 17 + N2 * 13 + D2 * 7) ^ (sizeof(R1) * 101 + sizeof(R2))) {}
+  public:
     static bool fits(i128 v, i128 l, i128 h) { return v >= l && v <= h; }
     // overflow-safe product test: x * k within [l, h]?  (|x| < 2^64, 0 < k < 2^64, so the product fits unsigned 128 bits)
     static bool mulfits(i128 x, i128 k, i128 l, i128 h, i128 &out) {
